@@ -15,6 +15,9 @@ BUILT = {
  'C04d1': 'O4.8', 'C13d1': 'O4.8', 'C15d2': 'O15.11', 'C10d1': 'O10.9', 'C10d2': 'O10.9 (+ tuple comparisons)', 'C13d2': 'O14.7', 'C03d1': 'O3.5', 'C03d2': 'O13.3 second native scenario (mirrored ids / offsets)',
  'C12d1': 'O12.8', 'C08d2': 'O12.8', 'C12d2': 'O12.9', 'C02d1': 'O2.8 file-counter post + fresh_open_manifests', 'C08d1': 'O8.5', 'C11d1': 'O11.6', 'C11d2': 'O11.7 (structural paths)', 'C14d1': 'O14.8', 'C14d2': 'O14.8',
  'C01d2': 'O1.2: abstract value id 0 = empty value', 'C16d1': 'O2.8 native scenario torn_first_manifest', 'C06d2': 'O1.2: skip-list pair lookups', 'C17d1': 'O17.4', 'C17d2': 'O9.8 second native scenario (close during a size compaction)',
+ 'C01e1': 'O2.5a native scenario with the shortest WAL records', 'C08e2': 'O9.3 transient-fault scenario; O9.3 listed under C08', 'C08e1': 'O7.13', 'C10e1': 'O10.10 + layout audit step', 'C10e2': 'O10.10',
+ 'C09e2': 'O7.11 fault-sweep scenario; O7.11 listed under C09', 'C09e1': 'take_while / count summaries; a panicking compact_range set-up counts as reproduced; O7.8 listed under C09', 'C12e2': 'Vec::reserve summary',
+ 'C03e2': 'O6.1 listed under C03', 'C02e1': 'O11.1 listed under C02', 'C01e2': 'O7.4b listed under C01', 'C16e1': 'O12.4 listed under C16',
 }
 rows = []
 for sid in sorted(os.listdir(os.path.join(HERE, 'seeded'))):
@@ -30,11 +33,15 @@ for sid in sorted(os.listdir(os.path.join(HERE, 'seeded'))):
 n = len(rows); c = len([r for r in rows if r[2].startswith('exit 1')])
 by_round = collections.Counter(r[0][3] for r in rows)
 text = ['## 7. Seeded changes (independent sub-agents, property text only)', '',
-        '%d changes in four rounds (%s), each written by a fresh sub-agent that saw only the text of one property and its own scratch' % (n, ', '.join('%s: %d' % (k, v) for k, v in sorted(by_round.items()))),
+        '%d changes in %d rounds (%s), each written by a fresh sub-agent that saw only the text of one property and its own scratch' % (n, len(by_round), ', '.join('%s: %d' % (k, v) for k, v in sorted(by_round.items()))),
         'worktree, and each confirmed by me in another scratch worktree (`tools/verify_seed.sh`: the demonstration passes without and',
         'fails with the change; the existing suite passes with it). Rounds c and d carried an exclusion list of the functions already',
         'used, which pushed the later changes into code no check covered yet (block iterator, file metadata, file names, table cache,',
         'snapshot list, linked list, writer protocol, log writer faults, table builder finalisation, filter block reader, disk lock).',
+        'Round e had no steer beyond the two flavours of the brief (multi-step / two sites; crash, fault, interleaving, unusual input); round f',
+        'pointed each agent at a different group of source files. Several agents of one round arrive at the same change independently',
+        '(sequence number published before the memtable insert: C03e2, C06e1, C06e2; filter key de-duplication across blocks: C13e1, C14e1,',
+        'C14e2; `First` fragment appended instead of replacing: C12e1, C12e2, C16e1, C08f2) - a hint at which mistakes are the likely ones.',
         '`tools/seed_matrix.py` applies every change to a private copy of /repo and runs the *whole quick check* of its property (and of',
         'neighbouring properties); `seeded/<id>/detect.json` holds the output, `seeded/MATRIX.md` the table. Result: **%d of %d** changes' % (c, n),
         'are reported with exit 1 and a native confirmation. A change that a check notices only as "inconclusive" (exit 2) is not',
